@@ -205,12 +205,16 @@ def real_side(ctx):
     plan = [(2, 1, [1, 2, 3]), (1, 0, [2, 1, 4]), (3, 2, [3, 3])] if ctx.quick else \
         [(t, b, p) for t in (1, 2, 4) for b in range(0, t) for p in ([1, 2, 3], [2, 1, 4], [3, 3], [1, 1, 8])]
     plan = plan + [("pipelined", 2, None), ("saturated", 2, None), ("inherited", 2, None)] + ([] if ctx.quick else [("pipelined", 1, None)])
-    results = _parallel(plan, lambda a, i: run_pipelined(a[1]) if a[0] == "pipelined" else run_saturated() if a[0] == "saturated"
-                        else run_inherited() if a[0] == "inherited" else run_real(a[0], a[1], a[2]), par=9)
+    def one(a, i):
+        return run_pipelined(a[1]) if a[0] == "pipelined" else run_saturated() if a[0] == "saturated" \
+            else run_inherited() if a[0] == "inherited" else run_real(a[0], a[1], a[2])
+    results = _parallel(plan, one, par=9)
     traces = [r[0] for r in results]
     metas = [r[1] for r in results]
     verdicts, stats = tlc.validate_batch("GThreadRealTrace", "GThreadRealTrace.cfg", traces, name="GThreadRealTrace_C13")
     ctx.add_traces(len(traces), stats)
+    tlc.repeat_failing(ctx, "GThreadRealTrace", "GThreadRealTrace.cfg", traces, metas, verdicts, range(len(plan)),
+                       lambda k: one(plan[k], k), "GThreadRealTrace_C13")
     ctx.coverage["real_process_runs"] = len(traces)
     for t, m, (v, step) in zip(traces, metas, verdicts):
         if v == "ok":
